@@ -56,11 +56,12 @@ def name_class(n):
 
 def generate(rng, tier):
     nlib = rng.choice([1, 1, 2, 3])
+    big = tier == "thorough"
     use_global = rng.random() < 0.5
     libs = list(range(nlib)) + (["g"] if use_global else [])
     ops = []
     hostile_rate = rng.choice([0.0, 0.1, 0.25, 0.4])
-    for _ in range(rng.randint(5, 60 if tier == "thorough" else 40)):
+    for _ in range(rng.randint(5, 90 if big else 40)):
         lib = rng.choice(libs)
         r = rng.random()
         if r < 0.5:
